@@ -18,7 +18,10 @@ import (
 	"io"
 	"log/slog"
 	"net/http"
+	"strconv"
+	"strings"
 	"sync"
+	"sync/atomic"
 
 	"github.com/magisterquis/curlrevshell/lib/opshell"
 	"golang.org/x/sync/errgroup"
@@ -39,7 +42,8 @@ type Broker struct {
 	key       string
 	cancelIn  func()
 	cancelOut func()
-	bidirKey  string /* Bidirectional sentinel key. */
+	bidirKey  string        /* Bidirectional sentinel key. */
+	nBidir    atomic.Uint64 /* Number of bidirectional connections. */
 	wg        sync.WaitGroup
 	noMore    bool
 
@@ -143,17 +147,25 @@ func (b *Broker) ConnectInOut(
 	w io.Writer,
 	r io.Reader,
 ) {
+	/* Each bidirectional connection gets its own key, so the input side
+	of one can't be paired with the output side of another. */
+	key := b.bidirKey + strconv.FormatUint(b.nBidir.Add(1), 10)
 	var wg sync.WaitGroup
 	wg.Add(2)
 	go func() {
 		defer wg.Done()
-		b.ConnectIn(ctx, sl, addr, w, b.bidirKey)
+		b.ConnectIn(ctx, sl, addr, w, key)
 	}()
 	go func() {
 		defer wg.Done()
-		b.ConnectOut(ctx, sl, addr, r, b.bidirKey)
+		b.ConnectOut(ctx, sl, addr, r, key)
 	}()
 	wg.Wait()
+}
+
+// isBidirKey returns true if key is a key made by ConnectInOut.
+func (b *Broker) isBidirKey(key string) bool {
+	return strings.HasPrefix(key, b.bidirKey)
 }
 
 // connect makes sure we can use this stream.  It makes sure there's not
@@ -196,7 +208,7 @@ func (b *Broker) connect(
 	/* Make sure the previous shell isn't still disconnecting. */
 	if "" == b.key && (nil != *cancelUs || nil != *cancelOther) {
 		sl.Error(LMDisconnecting)
-		if key == b.bidirKey {
+		if b.isBidirKey(key) {
 			b.Errorf(
 				addr,
 				"Rejected %s side of bidirectional "+
@@ -219,7 +231,7 @@ func (b *Broker) connect(
 	/* Don't double-connect. */
 	if nil != *cancelUs {
 		sl.Error(LMAlreadyConnected)
-		if key == b.bidirKey {
+		if b.isBidirKey(key) {
 			b.Errorf(
 				addr,
 				"Rejected unexpected %s side of "+
@@ -247,7 +259,15 @@ func (b *Broker) connect(
 			LKKey, b.key,
 			LKIncorrectKey, key,
 		)
-		if key == b.bidirKey {
+		if b.isBidirKey(key) && b.isBidirKey(b.key) {
+			b.Errorf(
+				addr,
+				"Rejected %s side of bidirectional "+
+					"connection, another bidirectional "+
+					"connection is already established",
+				string(dir),
+			)
+		} else if b.isBidirKey(key) {
 			b.Errorf(
 				addr,
 				"Rejected %s side of bidirectonal "+
@@ -276,7 +296,7 @@ func (b *Broker) connect(
 
 	/* Note we've a new connection. */
 	sl.Info(LMNewConnection)
-	if key != b.bidirKey {
+	if !b.isBidirKey(key) {
 		b.Logf(addr, "%s connected: ID %q", dirT, key)
 	}
 
@@ -295,7 +315,7 @@ func (b *Broker) connect(
 
 	/* Actually do the proxy. */
 	ct := "connection"
-	if key == b.bidirKey {
+	if b.isBidirKey(key) {
 		ct = "side of bidirectional " + ct
 	}
 	msg := fmt.Sprintf("%s %s closed", dirT, ct)
@@ -304,7 +324,7 @@ func (b *Broker) connect(
 		b.Errorf(addr, "%s: %s", msg, err)
 	} else {
 		sl.Info(LMDisconnected)
-		if key != b.bidirKey {
+		if !b.isBidirKey(key) {
 			b.Errorf(addr, "%s", msg)
 		}
 	}
